@@ -597,3 +597,80 @@ def enumerate_pairs(desc, oracle):
     elif raised:
         res.update(status="inconclusive", detail=f"{len(raised)} enumerated runs of a fault-free plan raised; first: {raised[0]}")
     return res
+
+
+# ----------------------------------------------------------------------------------------------- the error limit under preemption
+def run_fail_limit(max_errors, k, W, sched, seed, ncalls=12, hold="quiescent"):
+    """ncalls independent calls that all raise; TA = the worker whose call is the (max_errors+1)-th failure, i.e. the one that crosses the
+    limit. It is held at the k-th instruction of its failure bookkeeping; the calls that fail later were waiting inside their functions for
+    that moment. However long TA is preempted there, at most max_errors + W calls may fail in the run."""
+    import time
+
+    from . import ir as irmod, plainrun, rec
+
+    ir = irmod.IR()
+    calls = [ir.add("call", fname=f"f{i}") for i in range(ncalls)]
+    ir.output = irmod.X("list", [irmod.ref(c.id) for c in calls])
+    ir.meta["family"] = "preempt:fail_limit"
+    OP = OnePreemption(k, W - 1, hold=hold)
+    order = {"n": 0}
+    lock = threading.Lock()
+
+    def pre(nid, att):
+        with lock:
+            order["n"] += 1
+            idx = order["n"]
+        if idx == max_errors + 1:
+            OP.arm()
+        elif idx > max_errors + 1:
+            OP.harness_wait(lambda: OP.ta_paused.is_set() or OP.ta_done.is_set(), 2.0)
+        raise rec.InjectedError(f"failure #{idx} (n{nid})")
+
+    desc = {"seed": seed, "n": ncalls, "W": W, "sched": sched, "perturb": "none", "delays": "none", "max_errors": max_errors}
+    with OP:
+        def before_run(R_):
+            if R_.hang_drv is not None and R_.hang_drv.thread is not None:
+                OP.skip_native.add(R_.hang_drv.thread.native_id)
+
+        R = plainrun.execute(desc, pre=pre, record_args=False, ir=ir, before_run=before_run)
+    return R, OP, ir
+
+
+def enumerate_fail_limit(desc):
+    import hashlib
+
+    me, W, sched, ncalls = desc["max_errors"], desc["W"], desc["sched"], desc.get("ncalls", 12)
+
+    def oracle(R):
+        failed = len(R.H.raised)
+        if failed > me + W:
+            return f"{failed} calls failed with max_errors={me} and max_workers={W} (at most {me + W} may)"
+        if R.exc is None:
+            return "run returned normally although calls failed"
+        return None
+
+    R, OP, ir = run_fail_limit(me, None, W, sched, desc["seed"], ncalls)
+    N = OP.count
+    if N == 0:
+        return {"status": "inconclusive", "detail": "error-limit preemption: the limit-crossing worker executed no monitored instruction"}
+    bad = oracle(R)
+    counters = {"preempt_errlimit_cases": 1, "preempt_errlimit_positions": 0, "preempt_errlimit_holds_others_went_on": 0, "preempt_errlimit_holds_in_critical_section": 0}
+    points = set()
+    witness = None
+    if bad is None:
+        for k in range(1, N + 1):
+            R, OP, ir = run_fail_limit(me, k, W, sched, desc["seed"] + k, ncalls)
+            counters["preempt_errlimit_positions"] += 1
+            if OP.held_at is not None:
+                points.add(f"{OP.held_at[0]}@{OP.held_at[1]}")
+                counters["preempt_errlimit_holds_others_went_on" if len(R.H.raised) > me + 1 else "preempt_errlimit_holds_in_critical_section"] += 1
+            bad = oracle(R)
+            if bad:
+                bad = f"[the worker whose failure crossed the limit held at its instruction #{k} of {N} ({OP.held_at}) until the rest of the process was quiescent; {sched}] {bad}"
+                witness = {"history": R.H.compact_history(120), "k": k, "held_at": OP.held_at}
+                break
+    res = {"status": "ok", "counters": counters, "sets": {"preempt_errlimit_points_held": sorted(points)}, "nontrivial": counters["preempt_errlimit_holds_others_went_on"] > 0,
+           "sig": hashlib.sha1(f"errlimit|{me}|{W}|{sched}".encode()).hexdigest()[:16], "sample": {"desc": desc, "positions_N": N}}
+    if bad:
+        res.update(status="violation", detail=bad, mechanism="limits-errors", witness=witness)
+    return res
